@@ -26,7 +26,10 @@ VARIABLES doc, H, Hfirst, nth, resume, right, pages, placed, pending, phase
 vars == <<doc, H, Hfirst, nth, resume, right, pages, placed, pending, phase>>
 
 BVafter == IF Rich THEN {"auto", "avoid", "page", "left", "right"} ELSE {"auto", "avoid", "page"}
-Blk == [lines : 1..3, bb : {"auto", "avoid"}, ba : BVafter, bi : {"auto", "avoid"}, orphans : 1..2, widows : 1..2]
+\* pg: the `page` property of the paragraph (0: auto, 1: the page named "n", 2: the page named "m"). A paragraph that names
+\* a page other than the one its previous sibling names starts a new page (CSS Paged Media 3, 6.2). As in WeasyPrint (and in
+\* the repository's TestPageNames4) `auto` stays on the page it is on: going from a named paragraph to an auto one is no break.
+Blk == [lines : 1..3, bb : {"auto", "avoid"}, ba : BVafter, bi : {"auto", "avoid"}, orphans : 1..2, widows : 1..2, pg : (IF Rich THEN 0..2 ELSE {0})]
 
 RECURSIVE SumLines(_, _)
 SumLines(d, i) == IF i = 0 THEN 0 ELSE SumLines(d, i - 1) + d[i].lines
@@ -41,7 +44,7 @@ Combined(d, p) ==
   IF p < EndOf(d, b) THEN "inside"
   ELSE LET a == d[b].ba  c == d[b + 1].bb IN
        IF c \in {"left", "right"} THEN c ELSE IF a \in {"left", "right"} THEN a
-       ELSE IF a = "page" \/ c = "page" THEN "page"
+       ELSE IF a = "page" \/ c = "page" \/ (d[b + 1].pg # 0 /\ d[b].pg # d[b + 1].pg) THEN "page"
        ELSE IF a = "avoid" \/ c = "avoid" THEN "avoid" ELSE "auto"
 \* orphans / widows of the fragment of block b that ends the page at p, the page starting at s
 OW(d, p, s) == LET b == BlockOf(d, p) IN
